@@ -131,7 +131,7 @@ func expiryObserved(h *HHistory, obs []HObs) bool {
 
 func init() {
 	base := Profile{WAuthorize: 18, WRedeem: 24, WRefresh: 22, WRevoke: 8, WIntrospect: 4, WAdvance: 8, WSetClient: 2, WPassword: 5, WClientCreds: 1, WIntrospectEP: 2, WPush: 2, WAuthorizePAR: 2, WDeviceAuth: 3, WDecide: 3, WDevicePoll: 4,
-		PKCE: 10, Bad: 12, ShortLives: 25, MinOps: 8, MaxOps: 28, Smuggle: 10, Hybrid: 12, Implicit: 8}
+		PKCE: 10, Bad: 12, ShortLives: 25, MinOps: 8, MaxOps: 28, Smuggle: 10, Hybrid: 12, Implicit: 8, JWT: 15}
 	mk := func(id string, f func(p *Profile)) Profile { p := base; p.Name = id; f(&p); return p }
 	common := "seeded histories over authorize/redeem/refresh/revoke/introspect/advance/setclient with 2-4 clients, every access/refresh token probed after every step; distinct by operation list; non-trivial = "
 	regHist(&histProp{id: "C01", profile: mk("C01", func(p *Profile) {}), module: "Cases.Monitors", checkFn: "check_C01", quickN: 300, thoroN: 4000,
